@@ -143,7 +143,7 @@ def gen_qr(r, P, tps, base_ts=None, mode=None):
     else:
         p = r.choice([0.15, 0.5, 0.85])
         chosen = {f for f in fields if r.random() < p}
-    for f in chosen:
+    for f in [x for x in fields if x in chosen]:      # fixed order: set iteration depends on the per-process string hash seed
         if f == 'ts':
             j['ts'] = gen_ts(r, tps, base_ts)
         elif f == 'cip':
